@@ -3,6 +3,8 @@
    redirected to the scripted layer below.  Headers are pre-included by the build. */
 #include "hutil.h"
 #include <sys/epoll.h>
+#include <netinet/tcp.h>
+#include <netinet/in.h>
 
 static ssize_t mock_send(int fd, const void *buf, size_t len, int flags);
 static ssize_t mock_recv(int fd, void *buf, size_t len, int flags);
@@ -62,6 +64,33 @@ static int bell = -1, fdev = -1;
 static struct btcp_socket *cur_bts;
 static int dummy_fd = -1;
 
+/* TCP options: what tconnect snapshot at tconnect_connect(), and what setsockopt() last put on the
+   connection's kernel socket (setsockopt is wrapped at link time, so tcp_attr.c's calls land here) */
+static struct tcp_opts snap; static bool have_snap;
+static struct tcp_opts applied; static bool have_applied;
+
+int __wrap_setsockopt(int fd, int level, int optname, const void *optval, socklen_t optlen)
+{
+    int v = optlen >= sizeof(int) ? *(const int *)optval : 0;
+    if (level == SOL_SOCKET && optname == SO_KEEPALIVE) applied.keepalive = v != 0;
+    else if (level == SOL_TCP && optname == TCP_KEEPIDLE) applied.keepalive_time = v;
+    else if (level == SOL_TCP && optname == TCP_KEEPINTVL) applied.keepalive_interval = v;
+    else if (level == SOL_TCP && optname == TCP_KEEPCNT) applied.keepalive_count = v;
+    else if (level == SOL_TCP && optname == TCP_USER_TIMEOUT) applied.user_timeout = v / 1000;
+    return 0;
+}
+
+static void show_opts(FILE *o)
+{
+    struct tcp_opts *d = &cur_bts->conn.tcp_opts;
+    fprintf(o, "d=%d,%lld,%lld,%lld,%lld a=", d->keepalive, (long long)d->keepalive_time, (long long)d->keepalive_interval,
+	    (long long)d->keepalive_count, (long long)d->user_timeout);
+    if (have_applied)
+	fprintf(o, "%d,%lld,%lld,%lld,%lld", applied.keepalive, (long long)applied.keepalive_time,
+		(long long)applied.keepalive_interval, (long long)applied.keepalive_count, (long long)applied.user_timeout);
+    else fputc('-', o);
+}
+
 static int next_est(int *err)
 {
     if (used_est >= n_est) return 0;
@@ -112,6 +141,7 @@ static int mock_tc_connect(struct tconnect *tc, const struct xcm_addr_ip *lip, u
 			   uint16_t rport)
 {
     int e = 0;
+    snap = *opts; have_snap = true;
     if (used_est >= n_est) return 0;
     if (next_est(&e) == 1) { errno = e; return -1; }
     return 0;
@@ -125,7 +155,8 @@ static int mock_tc_get_fd(struct tconnect *tc, int *fd, int64_t *scope, struct t
     case 1: errno = e; return -1;
     default:
 	*fd = dummy_fd;
-	*opts = cur_bts->conn.tcp_opts;     /* unchanged options: nothing to re-apply */
+	*opts = snap;                       /* tconnect created the socket with its snapshot applied */
+	applied = snap; have_applied = true;
 	return 0;
     }
 }
@@ -165,6 +196,7 @@ static void new_conn(const char *state)
     bts->fd = -1; bts->fd_reg_id = -1; bts->scope = -1;
     bts->conn.bell_reg_id = 3;
     tcp_opts_init(&bts->conn.tcp_opts);
+    have_snap = false; have_applied = false;
     if (!strcmp(state, "resolving")) {
 	bts->conn.state = conn_state_resolving;
 	bts->conn.query = (struct xcm_dns_query *)0x10;
@@ -172,9 +204,11 @@ static void new_conn(const char *state)
     } else if (!strcmp(state, "connecting")) {
 	bts->conn.state = conn_state_connecting;
 	bts->conn.tconnect = (struct tconnect *)0x20;
+	snap = bts->conn.tcp_opts; have_snap = true;
     } else {
 	bts->conn.state = conn_state_ready;
 	bts->fd = dummy_fd; bts->fd_reg_id = 7;
+	applied = bts->conn.tcp_opts; have_applied = true;
     }
 }
 
@@ -210,7 +244,7 @@ int main(void)
     static char line[H_LINE_MAX];
     char *w[H_MAXW];
     FILE *o = stdout;
-    dummy_fd = dup(0);
+    dummy_fd = socket(AF_INET, SOCK_STREAM, 0);   /* a real TCP socket: tcp_effectuate_dscp() inspects its family */
     new_conn("ready");
     while (fgets(line, sizeof(line), stdin)) {
 	int n = h_words(line, w);
@@ -254,6 +288,24 @@ int main(void)
 	    btcp_update(sock);
 	    fprintf(o, "bell=%d fd=", bell);
 	    if (fdev >= 0) fprintf(o, "%d\n", fdev); else fputs("-\n", o);
+	} else if (!strcmp(w[0], "O") && n == 3) {
+	    /* O <option> <value>: the attribute setter of tcp.<option> (GEN_TCP_SET) */
+	    int64_t v = strtoll(w[2], NULL, 10);
+	    bool b = v != 0;
+	    errno = 0;
+	    int rc;
+	    if (!strcmp(w[1], "keepalive")) rc = set_keepalive_attr(sock, NULL, &b, sizeof(b));
+	    else if (!strcmp(w[1], "time")) rc = set_keepalive_time_attr(sock, NULL, &v, sizeof(v));
+	    else if (!strcmp(w[1], "interval")) rc = set_keepalive_interval_attr(sock, NULL, &v, sizeof(v));
+	    else if (!strcmp(w[1], "count")) rc = set_keepalive_count_attr(sock, NULL, &v, sizeof(v));
+	    else rc = set_user_timeout_attr(sock, NULL, &v, sizeof(v));
+	    int e = errno;
+	    if (rc < 0) fprintf(o, "-1 %s | ", h_errname(e)); else fprintf(o, "%d | ", rc);
+	    show_opts(o);
+	    fputc('\n', o);
+	} else if (!strcmp(w[0], "A") && n == 1) {
+	    show_opts(o);
+	    fputc('\n', o);
 	} else if (!strcmp(w[0], "SU") && n == 2) {
 	    /* server_update on a server socket */
 	    struct xcm_socket *srv = calloc(1, sizeof(struct xcm_socket) + sizeof(struct btcp_socket));
